@@ -43,9 +43,19 @@ func applyRemoveVal(skel *Skeleton, orig []byte, op Op, path *Path) error {
 	if cur.Target.Kind != KindArray {
 		return fmt.Errorf("%w: REMOVE_VAL target is not an array", ErrTypeMismatch)
 	}
+	// A map or array element matches when it encodes the same document as Value (its own header
+	// bytes are re-emitted on serialize, so they cannot be compared as raw bytes).
+	var valSkel *Skeleton
+	if isMapCode(op.Value[0]) || isArrayCode(op.Value[0]) {
+		valSkel, _ = Parse(op.Value)
+	}
 	for i, item := range cur.Target.ArrayItems {
 		if item.Kind != KindLeaf {
-			continue
+			if valSkel == nil || !skeletonEqual(item, orig, valSkel, op.Value) {
+				continue
+			}
+			cur.Target.ArrayItems = append(cur.Target.ArrayItems[:i], cur.Target.ArrayItems[i+1:]...)
+			return nil
 		}
 		raw := leafBytes(item, orig)
 		if bytes.Equal(raw, op.Value) {
@@ -54,4 +64,35 @@ func applyRemoveVal(skel *Skeleton, orig []byte, op Op, path *Path) error {
 		}
 	}
 	return nil
+}
+
+// skeletonEqual reports whether a (over blob origA) and b (over blob origB) encode the same
+// document: same nesting, same keys in the same order, byte-identical leaves.
+func skeletonEqual(a *Skeleton, origA []byte, b *Skeleton, origB []byte) bool {
+	if a.Kind != b.Kind {
+		return false
+	}
+	switch a.Kind {
+	case KindLeaf:
+		return bytes.Equal(leafBytes(a, origA), leafBytes(b, origB))
+	case KindMap:
+		if len(a.MapFields) != len(b.MapFields) {
+			return false
+		}
+		for i := range a.MapFields {
+			if a.MapFields[i].Key != b.MapFields[i].Key || !skeletonEqual(a.MapFields[i].Value, origA, b.MapFields[i].Value, origB) {
+				return false
+			}
+		}
+	case KindArray:
+		if len(a.ArrayItems) != len(b.ArrayItems) {
+			return false
+		}
+		for i := range a.ArrayItems {
+			if !skeletonEqual(a.ArrayItems[i], origA, b.ArrayItems[i], origB) {
+				return false
+			}
+		}
+	}
+	return true
 }
